@@ -24,7 +24,7 @@ CACHE_NAME = "simcache"
 
 RES_FAULTS = ("NOTFOUND", "ERR_BEFORE", "ERR_MID", "ERR_AFTER")
 NET_FAULTS = ("HTTP_404", "HTTP_5XX", "CONN_ERR", "TIMEOUT")
-FS_FAULTS = ("EIO", "ENOSPC", "SHORT_WRITE", "EMFILE", "SRC_MISSING")
+FS_FAULTS = ("EIO", "ENOSPC", "SHORT_WRITE", "EMFILE", "SRC_MISSING", "RENAME_EIO")
 PP_FAULTS = ("PP_ERR_BEFORE", "PP_ERR_MID", "PP_ERR_AFTER")
 VAL_FAULTS = ("VALIDATE_FALSE", "VALIDATE_IOERROR")
 ALL_FAULTS = RES_FAULTS + NET_FAULTS + FS_FAULTS + PP_FAULTS + VAL_FAULTS
@@ -153,7 +153,7 @@ class RunDirector(Director):
                         continue
                     if f["kind"] == "SRC_MISSING":
                         continue
-                    want_kind = "open" if f["kind"] == "EMFILE" else "write"
+                    want_kind = {"EMFILE": "open", "RENAME_EIO": "rename"}.get(f["kind"], "write")
                     if kind != want_kind or f.get("key") != key or f.get("nth", 0) != nth:
                         continue
                     if want_kind == "open" and not mut:
@@ -166,6 +166,8 @@ class RunDirector(Director):
                         action = ("raise", OSError(errno.ENOSPC, "No space left on device (injected)", path))
                     elif f["kind"] == "EMFILE":
                         action = ("raise", OSError(errno.EMFILE, "Too many open files (injected)", path))
+                    elif f["kind"] == "RENAME_EIO":
+                        action = ("raise", OSError(errno.EIO, "Input/output error (injected, rename)", path))
                     else:
                         action = ("short", max(0, int(f.get("frac", 0.5) * n)))
                     break
@@ -503,6 +505,14 @@ class World:
         return self.cache.remove(uri)
 
     def _purge(self):
+        if self.knobs.get("api", "object") == "module":
+            # module-level API: delete_cache purges and forgets the named cache; a new one is created on the
+            # same directory right away (which also exercises adoption of an emptied directory)
+            self.fc.delete_cache(CACHE_NAME)
+            self.cache = None
+            self._open_cache(self.knobs["max_bytes"], False, self.knobs.get("parallel", False),
+                             self.knobs.get("allow_missing", True))
+            return None
         return self.cache.purge()
 
     # ---------------------------------------------------- fine-grained mode
